@@ -56,4 +56,8 @@ def removeCleansTables : Bool := true
     (true since the `fix:` commit). -/
 def rejectStopsWorkers : Bool := true
 
+/-- `_origin_waiting_answer` is keyed by connection as well as by the two
+    identifiers (true since the `fix:` commit). -/
+def originKeyPerConn : Bool := true
+
 end DV.Config
